@@ -164,8 +164,16 @@ end
 theorem primDT_not_union (o : TraceOpts) (p : Prim) : isUnion (primDT o p) = false := by
   cases p with
   | int t => cases t <;> rfl
-  | str => simp only [primDT, strDT]; split <;> (try split) <;> rfl
+  | str | strRef | cowStr => simp only [primDT, strDT]; split <;> (try split) <;> rfl
   | _ => rfl
+
+/-- the bytes a sequence of `serialize_u8` calls means (`Spec.bytesOf`) are the bytes of the slice -/
+theorem bytesOf_u8Seq : ∀ b : List UInt8, bytesOf (u8Seq b) = some b
+  | [] => rfl
+  | x :: r => by
+    have h1 : (0 : Int) ≤ (x.toNat : Int) := Int.natCast_nonneg _
+    have h2 : ((x.toNat : Nat) : Int) ≤ 255 := by have := x.toNat_lt; omega
+    simp [u8Seq, bytesOf, byteOf, h1, h2, bytesOf_u8Seq r]
 
 theorem interp_prim (ext : Ext) (o : TraceOpts) (p : Prim) (v : Val) (nb : Bool) (h : p.wt v = true) :
     interpDT ext (primDT o p) nb [] (ser (.prim p) v) = .ok (lv (.prim p) v) := by
@@ -190,14 +198,18 @@ theorem interp_prim (ext : Ext) (o : TraceOpts) (p : Prim) (v : Val) (nb : Bool)
       have h2 : (c : Int) ≤ 4294967295 := by omega
       simp [IntTy.inRange, IntTy.min, IntTy.max, h1, h2]
     simp [ser, lv, primDT, interpDT, isUnknownVariant, interpScalar_eq_old, normErr_ok_iff, interpScalarOld, convLeaf, tryInto, hr, bind, Except.bind, pure, Except.pure]
-  | str =>
+  | str | strRef | cowStr =>
     cases v <;> simp [Prim.wt] at h
     simp only [ser, lv, primDT, strDT]
     by_cases hd : o.stringDictionaryEncoding = true <;> by_cases hl : o.stringsAsLargeUtf8 = true <;>
       simp [hd, hl, interpDT, isUnknownVariant, interpScalar_eq_old, normErr_ok_iff, interpScalarOld, interpDictStr, dictValue, liftO, scalarToString, strBytes]
-  | bytes =>
+  | bytes | bytesRef =>
     cases v <;> simp [Prim.wt] at h
     simp [ser, lv, primDT, interpDT, isUnknownVariant, interpScalar_eq_old, normErr_ok_iff, interpScalarOld]
+  | bytesSeq =>
+    -- `&[u8]` without serde_bytes: the SEQUENCE of u8 means the same binary value (`Spec.bytesOf`)
+    cases v <;> simp [Prim.wt] at h
+    simp [ser, lv, primDT, interpDT, isUnknownVariant, specBytes, bytesOf_u8Seq, liftO, bind, Except.bind, pure, Except.pure]
 
 
 /-- the first field called `name`, with its skip flag, type and value -/
